@@ -187,7 +187,7 @@ class OrderIndicator(Indicator, list):
                 item_kwargs = [item_kwargs]
 
             result = []
-            for item_value in max_occurs_iter(self.max_occurs, item_kwargs):
+            for item_value in item_kwargs:
                 try:
                     item_kwargs = set(item_value.keys())
                 except AttributeError:
@@ -736,7 +736,7 @@ class Group(Indicator):
 
             result = []
             sub_name = "_value_1" if self.child.accepts_multiple else None
-            for sub_kwargs in max_occurs_iter(self.max_occurs, item_kwargs):
+            for sub_kwargs in item_kwargs:
                 available_sub_kwargs = set(sub_kwargs.keys())
                 subresult = self.child.parse_kwargs(
                     sub_kwargs, sub_name, available_sub_kwargs
